@@ -271,7 +271,7 @@ Definition check_suite_case (k : suite_case) : bool * bool :=
     sandbox exists (stub instructions only), what it does in [setup].  Experiment 2 writes it with
     real instructions ([def], [env], [timeout], [cd], [file], probes run by the shell); experiment 3
     as stub instructions that mutate what they are handed. *)
-Inductive usage := UDef (n : nat) | URef (n : nat).
+Inductive usage := UDef (n v : nat) | URef (n : nat).   (* define symbol n with value v / refer to symbol n *)
 Record script := SC { sc_usages : list usage; sc_m1 : list mutation; sc_m2 : list mutation }.
 
 (** symbol validation: definitions enter the table in order; the first reference to a symbol not
@@ -279,17 +279,17 @@ Record script := SC { sc_usages : list usage; sc_m1 : list mutation; sc_m2 : lis
 Fixpoint validate_usages (tab : symtab) (us : list usage) : bool * list mutation :=
   match us with
   | [] => (true, [])
-  | UDef n :: us' => match env_get n tab with
-                     | Some _ => (false, [])          (* defined already: an error too *)
-                     | None => let (ok, ms) := validate_usages (env_set n 0 tab) us' in (ok, MSymPut n 0 :: ms)
-                     end
+  | UDef n v :: us' => match env_get n tab with
+                       | Some _ => (false, [])          (* defined already: an error too *)
+                       | None => let (ok, ms) := validate_usages (env_set n v tab) us' in (ok, MSymPut n v :: ms)
+                       end
   | URef n :: us' => match env_get n tab with
                      | Some _ => validate_usages tab us'
                      | None => (false, [])
                      end
   end.
 Definition defs_of (us : list usage) : list mutation :=
-  flat_map (fun u => match u with UDef n => [MSymPut n 0] | URef _ => [] end) us.
+  flat_map (fun u => match u with UDef n v => [MSymPut n v] | URef _ => [] end) us.
 
 Definition sem_of_script (s : script) : case_sem full_status :=
   CS (fun v => let (ok, ms) := validate_usages (v_syms v) (sc_usages s) in
@@ -299,7 +299,9 @@ Definition sem_of_script (s : script) : case_sem full_status :=
 (** what the harness could observe of a view ([None] = not observable at that point) *)
 Record oview := OV {
   ov_env : option env; ov_act_env : option env; ov_timeout : option (option Z);
-  ov_syms : option (list nat); ov_cwd : option vdir; ov_files : option (list (sds_dir * nat)) }.
+  ov_syms : option (list nat);              (* the names in the symbol table *)
+  ov_sym_vals : option (list (nat * nat));  (* values some instruction resolved symbols to (a part of the table) *)
+  ov_cwd : option vdir; ov_files : option (list (sds_dir * nat)) }.
 
 Definition pair_nat_eqb (a b : nat * nat) : bool := Nat.eqb (fst a) (fst b) && Nat.eqb (snd a) (snd b).
 Definition file_eqb (a b : sds_dir * nat) : bool := sds_dir_eqb (fst a) (fst b) && Nat.eqb (snd a) (snd b).
@@ -319,6 +321,7 @@ Definition view_matches (v : view) (o : oview) : bool :=
   opt_match (set_eqb pair_nat_eqb) (v_act_env v) (ov_act_env o) &&
   opt_match (option_eqb Z.eqb) (v_timeout v) (ov_timeout o) &&
   opt_match (set_eqb Nat.eqb) (map fst (v_syms v)) (ov_syms o) &&
+  opt_match (fun syms l => forallb (fun p => option_eqb Nat.eqb (env_get (fst p) syms) (Some (snd p))) l) (v_syms v) (ov_sym_vals o) &&
   opt_match vdir_eqb (v_cwd v) (ov_cwd o) &&
   opt_match (set_eqb file_eqb) (v_files v) (ov_files o).
 Definition oview_eqb (a b : oview) : bool :=
@@ -326,14 +329,18 @@ Definition oview_eqb (a b : oview) : bool :=
   option_eqb (set_eqb pair_nat_eqb) (ov_act_env a) (ov_act_env b) &&
   option_eqb (option_eqb Z.eqb) (ov_timeout a) (ov_timeout b) &&
   option_eqb (set_eqb Nat.eqb) (ov_syms a) (ov_syms b) &&
+  option_eqb (set_eqb pair_nat_eqb) (ov_sym_vals a) (ov_sym_vals b) &&
   option_eqb vdir_eqb (ov_cwd a) (ov_cwd b) &&
   option_eqb (set_eqb file_eqb) (ov_files a) (ov_files b).
 
-(** one case as observed: identifier, end of stage 1, begin and end of stage 2 *)
-Record ocase := OC { oc_result : full_status; oc_end1 : option oview; oc_view2 : option oview; oc_end2 : option oview }.
+(** one case as observed: identifier, end of stage 1, begin and end of stage 2, and what further
+    instructions (those a suite supplies in before-assert, assert, cleanup) saw after [setup] *)
+Record ocase := OC { oc_result : full_status; oc_end1 : option oview; oc_view2 : option oview; oc_end2 : option oview;
+                     oc_more : list oview }.
 Definition ocase_eqb (a b : ocase) : bool :=
   full_status_eqb (oc_result a) (oc_result b) && option_eqb oview_eqb (oc_end1 a) (oc_end1 b) &&
-  option_eqb oview_eqb (oc_view2 a) (oc_view2 b) && option_eqb oview_eqb (oc_end2 a) (oc_end2 b).
+  option_eqb oview_eqb (oc_view2 a) (oc_view2 b) && option_eqb oview_eqb (oc_end2 a) (oc_end2 b) &&
+  list_eqb oview_eqb (oc_more a) (oc_more b).
 Definition obs_matches (m : obs full_status) (o : ocase) : bool :=
   full_status_eqb (o_result m) (oc_result o) &&
   opt_match view_matches (o_end1 m) (oc_end1 o) &&
@@ -348,7 +355,8 @@ Definition obs_matches (m : obs full_status) (o : ocase) : bool :=
   | None, None => true
   | Some _, None => true
   | None, Some _ => false
-  end.
+  end &&
+  forallb (fun ov => match o_end2 m with Some v => view_matches v ov | None => false end) (oc_more o).
 
 Record hist_case := HistCase {
   hc_osenv : env;                         (* os.environ of the process (the variables the experiment looks at) *)
@@ -359,7 +367,7 @@ Record hist_case := HistCase {
   hc_obs : list ocase;                    (* ... as observed *)
   hc_alone : list ocase;                  (* every case of the list run alone, first, on fresh shared objects / in a fresh process *)
   hc_final : option (option env * list nat);   (* the shared dictionary and symbols after the run (if observable) *)
-  hc_proc_ok : bool }.                    (* cwd and os.environ of the process unchanged, no sandbox left *)
+  hc_proc_ok : bool }.                    (* cwd and os.environ of the process are, after the run, what they were *)
 
 Definition hist_initial (h : hist_case) : exe_conf * (cworld * store) :=
   (EC (match hc_environ h with Some _ => Some 0 | None => None end) (hc_timeout h) 0,
